@@ -201,7 +201,7 @@ func jobsFor(prop, tier string) []*Job {
 		// prefixes and field-level damage of valid frames: T-mode
 		for t := 1; t <= 15; t++ {
 			for _, sh := range wireShapes(t, false) {
-				if sh.Fld > 0 || sh.Big > 200 {
+				if sh.Fld > 0 || sh.Big > 200 || sh.Slen > 100 {
 					continue
 				}
 				ws := []int{1, 2}
